@@ -15,6 +15,7 @@
 import Upnp.Model.C12Cfg
 import Upnp.Lemmas.C12Ops
 import Upnp.Lemmas.C12Sub
+import Upnp.Lemmas.C12Renew
 import Upnp.Spec.C12
 namespace Upnp.C12
 open Upnp PyDict
@@ -261,6 +262,123 @@ theorem quiet_run (cfg : Cfg) (n : Nat) (ops : List Op) (hops : ∀ op ∈ ops, 
     rcases List.mem_append.1 he with he | he
     · exact g2 e he
     · exact h2 e he
+
+/-! ### kept alive: renewals are sent before the deadline -/
+
+/-- **wake_margin**: whenever the renewal loop goes to sleep, it will wake a full tolerance before
+    every deadline in the bookkeeping (`wait_time = min(deadlines) - now - tolerance`) -/
+theorem wake_margin (cfg : Cfg) (hs : cfg.skipStale = false) (hd : cfg.delEarly = false) :
+    ∀ (f : Nat) (st : St) (u : Time), (runHead cfg f st).task = .sleeping u →
+      ∀ p ∈ (runHead cfg f st).subs, u + ms cfg.tol ≤ p.2 := by
+  intro f
+  induction f with
+  | zero => intro st u h; simp [runHead] at h
+  | succ f ih =>
+    intro st u
+    simp only [runHead]
+    split
+    · intro h; simp at h
+    · rename_i p ps hsubs
+      split
+      · rename_i hw
+        intro h
+        simp only [TaskPc.sleeping.injEq] at h
+        subst h
+        intro q hq
+        exact head_sleep_margin cfg st p ps hsubs hw q hq
+      · split
+        · rename_i haw
+          intro h
+          obtain ⟨_, _, _, _, _, _, _, _, _, _, _, _, _, _, h9, _⟩ := roundStep_request cfg hs hd st.now st.subs st haw
+          rw [h9] at h; cases h
+        · exact ih _ u
+
+/-- **renew_round_start**: the loop wakes at `u` (a tolerance before every deadline, `wake_margin`); if
+    the publisher's next reactions — one per subscription — accept with latencies adding up to less than
+    the tolerance, the first renewal request of the round is sent at `u`, a full tolerance before the
+    deadline of its SID, and the calm-round invariant holds -/
+theorem renew_round_start (cfg : Cfg) (hs : cfg.skipStale = false) (hd : cfg.delEarly = false) (st : St) (u : Time)
+    (hm : ∀ p ∈ st.subs, u + ms cfg.tol ≤ p.2)
+    (hc : calmNext st.subs.length st.script st.dflt (ms cfg.tol))
+    (haw : (roundStep cfg u st.subs { st with now := u }).2 = true) :
+    RoundInv cfg (roundStep cfg u st.subs { st with now := u }).1
+    ∧ ∃ (r : Req) (sid : Sid) (rt : Time),
+        (roundStep cfg u st.subs { st with now := u }).1.rtrace = .req r :: st.rtrace
+        ∧ r.kind = .renew ∧ r.sid = some sid ∧ (sid, rt) ∈ st.subs ∧ r.t = u ∧ r.t + ms cfg.tol ≤ rt := by
+  have hc' : calmNext st.subs.length st.script st.dflt (u + ms cfg.tol - u) := by
+    have : u + ms cfg.tol - u = ms cfg.tol := by unfold Time at *; omega
+    rw [this]; exact hc
+  obtain ⟨h1, r, sid, rt, h2, h3, h4, h5, h6, h7⟩ :=
+    roundStep_calm cfg hs hd u st.subs { st with now := u } haw hm hc'
+  exact ⟨h1, r, sid, rt, h2, h3, h4, h5, h6, by rw [h6]; exact h7⟩
+
+/-- **renew_round_step** (the inductive step, for rounds of any length): in a calm round, when the reply of
+    the in-flight renewal arrives, either the next renewal request is sent at that moment — strictly before
+    `round start + tolerance`, hence strictly before the deadline of its SID — and the invariant holds
+    again, or the round is over and the loop is back at its head -/
+theorem renew_round_step (cfg : Cfg) (hs : cfg.skipStale = false) (hd : cfg.delEarly = false) (st : St)
+    (rnow : Time) (queue : List (Sid × Time)) (cur : Sid) (svc : Nat) (fb : Bool) (replyAt : Time) (reac : Reac)
+    (tmo : Tmo) (granted : Option Sid)
+    (ht : st.task = .inflight rnow queue cur svc fb replyAt reac tmo granted) (hinv : RoundInv cfg st) :
+    (∃ (r : Req) (sid : Sid) (rt : Time),
+        (deliver cfg { st with now := replyAt }).rtrace = .req r :: st.rtrace
+        ∧ r.kind = .renew ∧ r.sid = some sid ∧ (sid, rt) ∈ queue ∧ r.t = replyAt
+        ∧ r.t < rnow + ms cfg.tol ∧ r.t < rt ∧ RoundInv cfg (deliver cfg { st with now := replyAt }))
+    ∨ (∃ X : St, deliver cfg { st with now := replyAt } = runHead cfg (headFuel X) X) := by
+  unfold RoundInv at hinv
+  rw [ht] at hinv
+  obtain ⟨hfb, hacc, hcalm, hmargin⟩ := hinv
+  have hpos := calmNext_pos _ _ _ _ hcalm
+  unfold deliver
+  simp only [ht, hacc, if_true]
+  generalize (if (granted.getD cur != cur) = true then erase st.routed cur else st.routed) = R
+  split
+  · rename_i haw
+    left
+    obtain ⟨h1, r, sid, rt, h2, h3, h4, h5, h6, h7⟩ := roundStep_calm cfg hs hd rnow queue _ haw hmargin hcalm
+    refine ⟨r, sid, rt, h2, h3, h4, h5, h6, ?_, ?_, h1⟩
+    · rw [h6]; show replyAt < _; unfold Time at *; omega
+    · rw [h6]; show replyAt < _; unfold Time at *; omega
+  · right
+    exact ⟨_, rfl⟩
+
+/-- the property's lapse-freedom, as far as it is proved.
+
+    Full statement (DESIGN §5 `renew_before_expiry`): while the publisher accepts renewals and the summed
+    latency of a renewal round is `< tolerance`, every renewal request for a SID reaches the publisher no
+    later than the expiry the publisher holds for it, for every granted timeout `> tolerance`, every number
+    of services, unboundedly many rounds.
+
+    Proved (`_partial`): for every round that starts from a sleep (`wake_margin` ∘ `renew_round_start` ∘
+    `renew_round_step`, the latter an induction step valid for rounds of any length) every renewal request is
+    sent strictly before `round start + tolerance ≤` the deadline the profile holds for that SID.
+    Missing: (a) the link "deadline held by the profile ≤ expiry held by the publisher" (the deadline is
+    `clock value read before the request + granted timeout`, the expiry is `arrival + granted timeout`; the
+    model does not carry the publisher's table, the run-time judge `lapse:*` checks it on every calm
+    timeline); (b) rounds that start without sleeping (granted timeout `≤ tolerance + previous round's
+    duration`), where the argument needs the publisher's expiry, not the profile's deadline. -/
+theorem renew_before_expiry_partial (st : St) (u : Time) (f : Nat) (st0 : St)
+    (hst : st = runHead genCfg f st0) (ht : st.task = .sleeping u)
+    (hc : calmNext st.subs.length st.script st.dflt (ms genCfg.tol))
+    (haw : (roundStep genCfg u st.subs { st with now := u }).2 = true) :
+    RoundInv genCfg (roundStep genCfg u st.subs { st with now := u }).1
+    ∧ ∃ (r : Req) (sid : Sid) (rt : Time),
+        (roundStep genCfg u st.subs { st with now := u }).1.rtrace = .req r :: st.rtrace
+        ∧ r.kind = .renew ∧ r.sid = some sid ∧ (sid, rt) ∈ st.subs ∧ r.t + ms genCfg.tol ≤ rt := by
+  have hm : ∀ p ∈ st.subs, u + ms genCfg.tol ≤ p.2 := by
+    subst hst; exact wake_margin genCfg gen_shapes.1 gen_shapes.2.1 f st0 u ht
+  obtain ⟨h1, r, sid, rt, h2, h3, h4, h5, _, h7⟩ := renew_round_start genCfg gen_shapes.1 gen_shapes.2.1 st u hm hc haw
+  exact ⟨h1, r, sid, rt, h2, h3, h4, h5, h7⟩
+
+/-- non-vacuity: two subscriptions (61 s and 300 s), the loop wakes at 1 s, both renewals are sent at
+    1.0 s and 1.25 s — before 61 s — and again 60 s before the new earliest deadline -/
+example :
+    ((run genCfg 2 [⟨.ok, .sec 61, 0⟩, ⟨.ok, .sec 300, 0⟩, ⟨.ok, .sec 61, 250⟩] ⟨.ok, .sec 300, 0⟩
+        [Op.sub true, Op.wait 70000]).trace.filterMap fun e => match e with
+          | .req r => if r.kind == .renew then some (r.t, r.sid) else none
+          | _ => none)
+      = [(1000, some 1), (1250, some 2), (2000, some 1), (2000, some 2)] := by
+  decide
 
 /-! ### a failed renewal is reported exactly once -/
 
